@@ -65,6 +65,11 @@ class Person(Symbol):
         return f"{type(self).__name__}({self.name})"
 
 
+@dataclass(repr=False)
+class Loose(Person):
+    """a plain @dataclass: __eq__ generated from the fields, hence not hashable - a set refuses it"""
+
+
 @dataclass(eq=False, repr=False)
 class Employee(Person):
     pass
@@ -256,5 +261,5 @@ PERSON_CLASSES = {"Person": Person, "Employee": Employee, "Manager": Manager, "V
                   "WorkingStudent": WorkingStudent}
 ORG_CLASSES = {"Org": Org, "Dept": Dept}
 ODD_CLASSES = {"Bag": Bag, "Crate": Crate}
-ALL_CLASSES = {**PERSON_CLASSES, **ORG_CLASSES, "SeasonalA": SeasonalA, "SeasonalB": SeasonalB, "Chief": Chief, "VOrg": VOrg, "VPerson": VPerson, "Unit": Unit,
+ALL_CLASSES = {**PERSON_CLASSES, **ORG_CLASSES, "SeasonalA": SeasonalA, "SeasonalB": SeasonalB, "Loose": Loose, "Chief": Chief, "VOrg": VOrg, "VPerson": VPerson, "Unit": Unit,
                "Visitor": Visitor, "Delegate": Delegate, "Chair": Chair, "Convener": Convener}
